@@ -53,9 +53,26 @@ class InternalContext(Generic[MODEL_T]):
         self._internal_adapter = internal_adapter
         self._workflow = workflow
         self._workers = []
+        try:
+            self._loop: asyncio.AbstractEventLoop | None = asyncio.get_running_loop()
+        except RuntimeError:
+            self._loop = None
 
-    def _execute_task(self, coro: Coroutine[Any, Any, Any]) -> asyncio.Task[Any]:
+    def _execute_task(
+        self, coro: Coroutine[Any, Any, Any]
+    ) -> asyncio.Task[Any] | None:
         """Execute a coroutine as a tracked background task."""
+        try:
+            asyncio.get_running_loop()
+        except RuntimeError:
+            # Called from a synchronous step, which runs in an executor thread:
+            # hand the coroutine to the run's event loop and wait until it has
+            # been carried out, so it is complete before the step returns.
+            if self._loop is None:
+                coro.close()
+                raise
+            asyncio.run_coroutine_threadsafe(coro, self._loop).result()
+            return None
         task = asyncio.create_task(coro)
         self._workers.append(task)
 
